@@ -55,17 +55,29 @@ def derive(api, rng, convs, recs_of):
         for _ in range(rng.randint(1, 3)):
             k = rng.choice(allp + ["zz"])
             m[k] = rng.choice(["n1", "n2", "N1"] + allp)
+        if rng.random() < 0.2:
+            m = rng.choice(convs).synonym_to_prefix if hasattr(c, "synonym_to_prefix") else m
+            probe.S.counters["wl:mapping-argument-is-a-live-attribute"] += 1
         return kind, call(curies.remap_curie_prefixes, c, m), [c]
     if kind == "remap_uri":
         m = {}
         for _ in range(rng.randint(1, 3)):
             k = rng.choice(allu + ["zz/"])
             m[k] = rng.choice(["n/", "m/", "N/"] + allu)
+        if rng.random() < 0.2:
+            other = rng.choice(convs)
+            m = {u: "adopted/" + p for u, p in other.reverse_prefix_map.items()} if rng.random() < 0.5 else other.reverse_prefix_map
+            probe.S.counters["wl:mapping-argument-is-a-live-attribute"] += 1
         return kind, call(curies.remap_uri_prefixes, c, m), [c]
     if kind == "rewire":
         m = {}
         for _ in range(rng.randint(1, 3)):
             m[rng.choice(allp + ["zz"])] = rng.choice(["n/", "m/", "N/"] + allu)
+        if rng.random() < 0.25:
+            # the rewiring is a live public attribute of a converter of the case (its prefix_map has exactly the shape
+            # of a rewiring: "adopt that converter's URI prefixes"): aliasing must not let the call write into it
+            m = rng.choice(convs).prefix_map
+            probe.S.counters["wl:mapping-argument-is-a-live-attribute"] += 1
         return kind, call(curies.rewire, c, m), [c]
     uris = [u + str(i) for u in (allu + ["http://d/", "http://d/x_"]) for i in range(2)]
     return kind, call(curies.discover, uris, converter=c, cutoff=rng.choice([None, 1, 2])), [c]
